@@ -262,7 +262,12 @@ class ProgGen:
       self.emit("  %s: %s" % (k, r.choice(["int", "Optional[str]", "Dict[str, int]"])))
     self.emit("%s: %s = {%s}" % (self.kname(), t1, ", ".join("'%s': %s" % (k, self.wrong_value()) for k in keys)))
     self.emit("%s: %s = {'%s': %s, '%s': 1}" % (self.kname(), t2, keys[0], self.wrong_value(), self.aname()))
-    self.feat("typeddict-functional", "typeddict-class")
+    # a call whose argument misses several keys and has several extra ones: the error text lists both key SETS
+    # (printed in set iteration order before fix 3974662, i.e. dependent on the hash seed)
+    fn = self.aname()
+    self.emit("def %s(x: %s): pass" % (fn, t1))
+    self.emit("%s({%s})" % (fn, ", ".join("'%s': %d" % (self.aname(), i) for i in range(r.randint(2, 4)))))
+    self.feat("typeddict-functional", "typeddict-class", "typeddict-key-sets-in-error")
 
   def generic_block(self):
     r = self.r
